@@ -23,6 +23,7 @@ RULE = (
     "of the original DAG and original(*args) are identical before composing, after composing and after running the "
     "composed DAG. non-trivial = some input is a function site used downstream through a kwarg, an index or a flag, "
     "or an error class."
+    " Round 9 additions: setup results that cannot be deep-copied; consumers with 10-24 arguments repeating a dependency; thorough tier: one pipeline of 1040-1715 steps per shard (quick tier: one in the regression corpus)."
 )
 ASSUMPTIONS = ["inputs and outputs are disjoint; setup sites are not used as inputs (tawazi rejects setup nodes fed by DAG inputs)"]
 BUDGET = {"quick": {"shards": 8, "seconds": 40}, "thorough": {"shards": 16, "seconds": 420}}
